@@ -254,9 +254,16 @@ func Rename(a, b string) error {
 	}
 	return os.Rename(a, b)
 }
+// Remove issues what os.Remove issues: unlink, and when that fails (missing
+// file, or a directory) a second attempt with rmdir.
 func Remove(name string) error {
 	if err := hook("unlink", name, "", true); err != nil {
 		return err
+	}
+	if fi, err := os.Lstat(name); err != nil || fi.IsDir() {
+		if err := hook("unlink", name, "", true); err != nil {
+			return err
+		}
 	}
 	return os.Remove(name)
 }
